@@ -23,8 +23,8 @@ from ..harness import Section, REPO
 from . import c0506_common as K
 
 FULL = ["a", "E", "N", "D", "1", "-", "+", ".", "#", ":", '"', "'", "(", ")", "{", "}", ",", "=", ";",
-        "<", ">", "/", "*", " ", "\n"]
-REDUCED = ["a", "1", "=", "(", ")", "{", "}", ",", '"', ";", " ", "<"]
+        "<", ">", "/", "*", " ", "\n", "\x1a", "\u00e9"]       # + a control character and a non-ASCII letter (not in every character set)
+REDUCED = ["a", "1", "=", "(", ")", "{", "}", ",", '"', ";", " ", "<", "\x1a", "\u00e9"]
 
 POOL_QUICK = ["a", "1", "=", ",", "(", ")", "{", "}", '"', "'", '"s"', "END", "END_GROUP", "GROUP",
               "<m>", ";", "/*", "*/", "#", "", "(1)", "2001-01-01T12:00+1", "2001-01-01-1",
